@@ -400,7 +400,13 @@ def forall_range(n, pred, hint="k"):
     """forall k in [0, n): pred(k)   (sym: fresh k; native/interp: enumeration)"""
     if CTX.mode == "sym":
         k = fresh_int(hint)
-        return implies(And(k >= 0, k < n), pred(k))
+        body = implies(And(k >= 0, k < n), pred(k))
+        if getattr(CTX, "assuming", 0):
+            # in an assumed formula (loop invariant being assumed) the quantifier is a real one
+            if isinstance(body, bool):
+                return body
+            return SBool(z3.ForAll([k.t], body.t))
+        return body      # in a goal: k is a fresh (universally quantified) constant
     return all(bool(pred(k)) for k in range(n))
 
 
